@@ -414,6 +414,9 @@ class RefExec:
         if td.kind == "ENUM":
             return t.choose(td.names())
         if td.custom == "xstr":
+            if t.chance(7):
+                self.plan.probe("scalar_serialises_to_null")
+                return "nil"  # XStr serialises this value to null (legal): null at that position
             return "w%d" % n
         if td.custom == "xnum":
             return n
@@ -617,7 +620,7 @@ class RefExec:
                 ok = isinstance(raw, str) and raw in td.names()
             elif td.custom == "xstr":
                 ok = isinstance(raw, str)
-                out = ("x:" + raw) if ok else None
+                out = (None if raw == "nil" else "x:" + raw) if ok else None
             elif td.custom == "xnum":
                 ok = isinstance(raw, int) and not isinstance(raw, bool)
                 out = (raw + 1000) if ok else None
